@@ -75,6 +75,24 @@ func init() {
 	mutant(&Mutant{Name: "c03-lookahead-skips-template", Property: "C03", File: "html/html.go",
 		Old: "\t\t\t\t\t\t\tif next.TokenType == html.TextToken && parse.IsAllWhitespace(next.Data) {\n\t\t\t\t\t\t\t\tcontinue\n", New: "\t\t\t\t\t\t\tif next.TokenType == html.TextToken && parse.IsAllWhitespace(next.Data) || next.TokenType == html.TemplateToken {\n\t\t\t\t\t\t\t\tcontinue\n",
 		Rule: "R03.4", Construct: "look-ahead skips TemplateToken"})
+	mutant(&Mutant{Name: "c03-table-section-end-omitted-before-row", Property: "C03", File: "html/html.go",
+		Old: "next.TokenType == html.StartTagToken && (next.Hash == Thead || next.Hash == Tbody || next.Hash == Tfoot) {", New: "next.TokenType == html.StartTagToken && (next.Hash == Thead || next.Hash == Tbody || next.Hash == Tfoot || next.Hash == Tr) {",
+		Rule: "R03.2", Construct: "table section followed by a tag that closes it"})
+	mutant(&Mutant{Name: "c03-table-section-end-omitted-blindly", Property: "C03", File: "html/html.go",
+		Old: "\t\t\t\t\tif t.Hash == Tr || t.Hash == Th || t.Hash == Td ||", New: "\t\t\t\t\tif t.Hash == Tbody || t.Hash == Tr || t.Hash == Th || t.Hash == Td ||",
+		Rule: "R03.2", Construct: "needs no look-ahead"})
+	mutant(&Mutant{Name: "c03-veto-does-not-look-past-comments", Property: "C03", File: "html/html.go",
+		Old: "for next.TokenType == html.TextToken && parse.IsAllWhitespace(next.Data) || next.TokenType == html.CommentToken && !o.KeepComments && !o.KeepSpecialComments {", New: "for next.TokenType == html.TextToken && parse.IsAllWhitespace(next.Data) {",
+		Rule: "R03.14", Construct: "looks past comments"})
+	mutant(&Mutant{Name: "c03-option-text-dropped-outside-select", Property: "C03", File: "html/html.go",
+		Old: "\t\t\t\tif inSelect && (t.Hash == Option || t.Hash == Optgroup) {", New: "\t\t\t\tif t.Hash == Option || t.Hash == Optgroup {",
+		Rule: "R03.13", Construct: "only inside a select element"})
+	mutant(&Mutant{Name: "c03-option-end-tag-blind-outside-select", Property: "C03", File: "html/html.go",
+		Old: "t.Hash == Option && inSelect || t.Hash == Dd", New: "t.Hash == Option || t.Hash == Dd",
+		Rule: "R03.2", Construct: "needs no look-ahead"})
+	mutant(&Mutant{Name: "c03-colgroup-start-dropped-after-open-colgroup", Property: "C03", File: "html/html.go",
+		Old: "keepTag = next.TokenType != html.StartTagToken || next.Hash != Col || openColgroup\n", New: "keepTag = next.TokenType != html.StartTagToken || next.Hash != Col\n\t\t\t\t\t\t\t_ = openColgroup\n",
+		Rule: "R03.15", Construct: "colgroup start tag kept while a colgroup is open"})
 	mutant(&Mutant{Name: "c03-attr-unescaped", Property: "C03", File: "html/html.go",
 		Old: "\t\t\t\t\t\tval = html.EscapeAttrVal(&attrByteBuffer, val, quote, o.KeepQuotes || isXML)\n", New: "\t\t\t\t\t\tif quote != 0 || len(val) > 3 {\n\t\t\t\t\t\t\tval = html.EscapeAttrVal(&attrByteBuffer, val, quote, o.KeepQuotes || isXML)\n\t\t\t\t\t\t}\n",
 		Rule: "R03.3", Construct: "attribute value"})
@@ -98,7 +116,11 @@ func runC03(c *Ctx) {
 	c.r0310(pk, fd)
 	c.r0311(pk, fd)
 	c.r0313(pk, fd)
+	c.r0314(pk, fd)
+	c.r0315(pk, fd)
 	// an attribute wrongly marked boolean loses its value: the table check of C17, restricted to the attribute traits
+	// an attribute value that holds code decodes to the same value only if the code was minified as the browser reads it
+	c.alsoUnder(map[string]string{"R11.9": "R03.16"}, nil, func() { c.r119() })
 	c.alsoUnder(map[string]string{"R17.htmltraits": "R03.12"}, func(construct string) bool { return strings.HasPrefix(construct, "html.attrMap[") || strings.HasPrefix(construct, "floor/attrMap") }, func() { c.ruleHTMLTraits() })
 	c.r033(pk, fd)
 	c.r034(pk, fd)
@@ -409,16 +431,61 @@ func (c *Ctx) r032(pk *packages.Package, fd *ast.FuncDecl) {
 			return true
 		}
 		if strings.Contains(str(cond), "next.Hash") || strings.Contains(str(cond), "next.TokenType") {
+			// table sections: the start tags named by the look-ahead must be ones that close the section
+			var sect []string
+			for p := c.P.Parent(ifs); p != nil; p = c.P.Parent(p) {
+				outer, ok := p.(*ast.IfStmt)
+				if !ok || outer.Body.Pos() > as.Pos() || as.End() > outer.Body.End() {
+					continue
+				}
+				if names, ok := c.hashDisjunction(info, h, outer.Cond, "t.Hash"); ok {
+					sect = names
+					break
+				}
+			}
+			allSections := len(sect) > 0
+			for _, nm := range sect {
+				if nm != "thead" && nm != "tbody" && nm != "tfoot" {
+					allSections = false
+				}
+			}
+			if allSections {
+				var named, bad []string
+				negated := false
+				ast.Inspect(cond, func(z ast.Node) bool {
+					be, ok := z.(*ast.BinaryExpr)
+					if !ok || str(be.X) != "next.Hash" {
+						return true
+					}
+					if be.Op == token.NEQ {
+						negated = true
+					}
+					if be.Op == token.EQL {
+						if v, ok := intConst(info, be.Y); ok {
+							if nm, ok := h.decode(v); ok {
+								named = append(named, nm)
+								if !ref.HTMLTableSectionClosers[nm] {
+									bad = append(bad, nm)
+								}
+							}
+						}
+					}
+					return true
+				})
+				c.R.Check(!negated && len(bad) == 0 && len(named) > 0, rule, fmt.Sprintf("html.Minifier.Minify/omitEndTag guard#%d table section followed by a tag that closes it", n), c.pos(cond), "next start tag ∈ {"+strings.Join(named, " ")+"}", "the end tag of a table section is omitted in front of "+strings.Join(bad, ", ")+" (or of everything but a named tag): a start tag that does not close the section — a `tr` — is parsed into it (`</thead><tr>` puts the body row into the thead)")
+				return true
+			}
 			c.R.Exists(rule, fmt.Sprintf("html.Minifier.Minify/omitEndTag guard#%d (content-model dependent)", n), c.pos(cond), "reported, not judged: "+str(cond))
 			return true
 		}
 		// disjunction of t.Hash == K
 		construct := fmt.Sprintf("html.Minifier.Minify/omitEndTag guard#%d unconditional set", n)
-		names, ok := c.hashDisjunction(info, h, cond, "t.Hash")
+		names, flagOf, ok := c.hashDisjunctionFlagged(info, h, cond, "t.Hash")
 		if !ok {
 			c.R.Unres(rule, construct, c.pos(cond), "guard shape not recognised: "+str(cond))
 			return true
 		}
+		gFlags := c.graph(pk, fd)
 		var bad []string
 		for _, nm := range names {
 			if !ref.HTMLOptionalEndTag[nm] {
@@ -429,6 +496,9 @@ func (c *Ctx) r032(pk *packages.Package, fd *ast.FuncDecl) {
 		var blind []string
 		for _, nm := range names {
 			if ref.HTMLOptionalEndTag[nm] && !ref.HTMLEndTagOmissibleBlind[nm] {
+				if in := ref.HTMLEndTagOmissibleBlindIn[nm]; in == "select" && c.selectFlag(info, gFlags, flagOf[nm]) {
+					continue // blind inside that element only, and the disjunct is conjoined with its flag
+				}
 				blind = append(blind, nm)
 			}
 		}
@@ -583,6 +653,104 @@ func (c *Ctx) hashDisjunction(info *types.Info, h *hashTable, e ast.Expr, lhs st
 	return nil, false
 }
 
+// hashDisjunctionFlagged reads `t.Hash == A || t.Hash == B && flag || …` and `flag && (t.Hash == A || …)`: the element
+// names and, per name, the boolean variable its disjunct is conjoined with (nil: none).
+func (c *Ctx) hashDisjunctionFlagged(info *types.Info, h *hashTable, e ast.Expr, lhs string) ([]string, map[string]types.Object, bool) {
+	flags := map[string]types.Object{}
+	boolVar := func(x ast.Expr) types.Object {
+		id, ok := ast.Unparen(x).(*ast.Ident)
+		if !ok {
+			return nil
+		}
+		o := info.Uses[id]
+		if o == nil {
+			return nil
+		}
+		if bt, ok := o.Type().Underlying().(*types.Basic); ok && bt.Info()&types.IsBoolean != 0 {
+			return o
+		}
+		return nil
+	}
+	var walk func(x ast.Expr, flag types.Object) ([]string, bool)
+	walk = func(x ast.Expr, flag types.Object) ([]string, bool) {
+		x = ast.Unparen(x)
+		if b, ok := x.(*ast.BinaryExpr); ok {
+			switch b.Op {
+			case token.LOR:
+				l, ok1 := walk(b.X, flag)
+				r, ok2 := walk(b.Y, flag)
+				return append(l, r...), ok1 && ok2
+			case token.LAND:
+				if f := boolVar(b.Y); f != nil && flag == nil {
+					return walk(b.X, f)
+				}
+				if f := boolVar(b.X); f != nil && flag == nil {
+					return walk(b.Y, f)
+				}
+			case token.EQL:
+				if str(b.X) == lhs {
+					if v, ok := intConst(info, b.Y); ok {
+						if nm, ok := h.decode(v); ok {
+							flags[nm] = flag
+							return []string{nm}, true
+						}
+					}
+				}
+			}
+		}
+		return nil, false
+	}
+	names, ok := walk(e, nil)
+	return names, flags, ok
+}
+
+// selectFlag: a boolean variable that is only ever assigned false, or — under `t.Hash == Select` — true or the test
+// `t.TokenType == html.StartTagToken`: it is true exactly between a select start tag and the next select end tag.
+func (c *Ctx) selectFlag(info *types.Info, g *flow.Graph, o types.Object) bool {
+	if o == nil {
+		return false
+	}
+	n := 0
+	for _, y := range g.Nodes {
+		if y.Kind != flow.KStmt {
+			continue
+		}
+		var rhs ast.Expr
+		hit := false
+		if as, ok := y.Stmt.(*ast.AssignStmt); ok {
+			for i, l := range as.Lhs {
+				if id, ok := l.(*ast.Ident); ok && info.ObjectOf(id) == o && i < len(as.Rhs) {
+					hit, rhs = true, as.Rhs[i]
+				}
+			}
+		}
+		if !hit {
+			continue
+		}
+		n++
+		r := nospace(str(rhs))
+		if r == "false" {
+			continue
+		}
+		if r != "true" && r != "t.TokenType==html.StartTagToken" && r != "html.StartTagToken==t.TokenType" {
+			return false
+		}
+		under := false
+		for _, f := range g.DomFacts(y) {
+			if f.Value && f.Test.Kind == flow.KCond {
+				cs := nospace(str(f.Test.Expr))
+				if cs == "t.Hash==Select" || cs == "Select==t.Hash" {
+					under = true
+				}
+			}
+		}
+		if !under {
+			return false
+		}
+	}
+	return n >= 2
+}
+
 func (c *Ctx) r033(pk *packages.Package, fd *ast.FuncDecl) {
 	const rule = "R03.3"
 	c.R.Rule(rule, "in the attribute loop of html.(*Minifier).Minify, after the `=` is written (w.Write(isBytes)) every path to the next write passes `val = html.EscapeAttrVal(…)` and that next write is w.Write(val): there is one quoting routine and no attribute value bypasses it (attributes containing templates are written verbatim from the source before the `=` path is entered)")
@@ -712,6 +880,20 @@ func (c *Ctx) tagDropLooksAhead(pk *packages.Package, fd *ast.FuncDecl, rule, el
 	n := 0
 	for _, y := range g.Nodes {
 		if y.Kind != flow.KCond || (nospace(str(y.Expr)) != "t.Hash=="+elem && nospace(str(y.Expr)) != elem+"==t.Hash") {
+			continue
+		}
+		// only tests inside the removal condition (`!hasAttributes && (…)`): other tests of the element — state
+		// tracking, end tag omission — do not decide whether the tag is written
+		inRemoval := false
+		for p := c.P.Parent(y.Expr); p != nil; p = c.P.Parent(p) {
+			if ifs, ok := p.(*ast.IfStmt); ok {
+				if ifs.Cond != nil && ifs.Cond.Pos() <= y.Expr.Pos() && y.Expr.End() <= ifs.Cond.End() && strings.Contains(str(ifs.Cond), "hasAttributes") {
+					inRemoval = true
+				}
+				break
+			}
+		}
+		if !inRemoval {
 			continue
 		}
 		// the outcome nodes of this test inside the removal condition
@@ -904,7 +1086,7 @@ func (c *Ctx) r0311(pk *packages.Package, fd *ast.FuncDecl) {
 // R03.13: text is thrown away unseen only where the content model has no text.
 func (c *Ctx) r0313(pk *packages.Package, fd *ast.FuncDecl) {
 	const rule = "R03.13"
-	c.R.Rule(rule, "html.(*Minifier).Minify discards a text token without looking at it (`tb.Shift()` of a peeked TextToken, result unused) right after the tags of the select family, where only white space can stand in a conforming document. The elements named by the enclosing test of t.Hash are a subset of {select, optgroup, option}: datalist, for one, holds phrasing content as fallback for browsers without datalist support (`<datalist>or pick from the list: <select>…` loses its text)")
+	c.R.Rule(rule, "html.(*Minifier).Minify discards a text token without looking at it (`tb.Shift()` of a peeked TextToken, result unused) right after the tags of the select family, where only white space can stand in a conforming document. The elements named by the enclosing test of t.Hash are a subset of {select, optgroup, option}: datalist, for one, holds phrasing content as fallback for browsers without datalist support (`<datalist>or pick from the list: <select>…` loses its text). The test is conjoined with a select flag — a boolean that is only assigned false, or under `t.Hash == Select` the start-tag test — because option and optgroup also occur in datalist and, in broken documents, anywhere")
 	info := pk.TypesInfo
 	h := c.loadHash(rule, "html")
 	if h == nil {
@@ -936,12 +1118,17 @@ func (c *Ctx) r0313(pk *packages.Package, fd *ast.FuncDecl) {
 		}
 		n++
 		// the enclosing element test
-		var names []string
+		var names, unflagged []string
 		found := false
 		for p := c.P.Parent(es); p != nil && !found; p = c.P.Parent(p) {
 			if ifs, ok := p.(*ast.IfStmt); ok && strings.Contains(str(ifs.Cond), "t.Hash") {
-				if nm, ok := c.hashDisjunction(info, h, ifs.Cond, "t.Hash"); ok {
+				if nm, fl, ok := c.hashDisjunctionFlagged(info, h, ifs.Cond, "t.Hash"); ok {
 					names, found = nm, true
+					for _, k := range nm {
+						if !c.selectFlag(info, g, fl[k]) {
+							unflagged = append(unflagged, k)
+						}
+					}
 				}
 			}
 			if _, isCase := p.(*ast.CaseClause); isCase {
@@ -954,7 +1141,152 @@ func (c *Ctx) r0313(pk *packages.Package, fd *ast.FuncDecl) {
 				bad = append(bad, nm)
 			}
 		}
+		c.R.Check(found && len(unflagged) == 0, rule, fmt.Sprintf("html.Minifier.Minify/text token discarded#%d only inside a select element", n), c.pos(es), "conjoined with the select flag", "the text after a tag of "+strings.Join(unflagged, ", ")+" is discarded whether or not the tag stands inside a select element: an option in a datalist or anywhere else in the document can be followed by text (`<datalist><option>b</option> or <option>d</option></datalist>`, `<p>a <option>b</option> c`), which disappears")
 		c.R.Check(found && len(bad) == 0, rule, fmt.Sprintf("html.Minifier.Minify/text token discarded#%d only in the select family", n), c.pos(es), "after tags of "+strings.Join(names, ", "), "a text token is discarded unseen after a tag of "+strings.Join(bad, ", ")+" (or without a test of the element at all): that element may contain text, which disappears from the document")
 	}
 	c.R.Floor(rule, "discarded text tokens", n, 2)
+}
+
+// R03.14: the script/template veto looks past comments, which the minifier drops.
+func (c *Ctx) r0314(pk *packages.Package, fd *ast.FuncDecl) {
+	const rule = "R03.14"
+	c.R.Rule(rule, "the look-ahead that keeps an end tag in front of a script or template element (R03.11) must see that element through everything the minifier removes between the two: white space text and comments. In html.(*Minifier).Minify the loop that precedes the comparison of the next token's Hash with Script / Template skips text tokens and names html.CommentToken in its condition, and the veto condition itself names html.CommentToken (a comment that is kept would become a child of the unclosed element just as a script would). `<ul><li>a</li><!--c--><script>x</script></ul>` → the script inside the li")
+	n := 0
+	ast.Inspect(fd.Body, func(x ast.Node) bool {
+		blk, ok := x.(*ast.BlockStmt)
+		if !ok {
+			return true
+		}
+		for i, st := range blk.List {
+			ifs, ok := st.(*ast.IfStmt)
+			if !ok {
+				continue
+			}
+			cs := nospace(str(ifs.Cond))
+			if !strings.Contains(cs, ".Hash==Script") || !strings.Contains(cs, ".Hash==Template") {
+				continue
+			}
+			// only the veto: its body clears omitEndTag
+			clears := false
+			for _, b := range ifs.Body.List {
+				if as, ok := b.(*ast.AssignStmt); ok && len(as.Lhs) == 1 && str(as.Lhs[0]) == "omitEndTag" && str(as.Rhs[0]) == "false" {
+					clears = true
+				}
+			}
+			if !clears {
+				continue
+			}
+			n++
+			var loop *ast.ForStmt
+			for j := i - 1; j >= 0; j-- {
+				if f, ok := blk.List[j].(*ast.ForStmt); ok {
+					loop = f
+					break
+				}
+			}
+			okLoop := loop != nil && loop.Cond != nil && strings.Contains(nospace(str(loop.Cond)), "html.CommentToken") && strings.Contains(nospace(str(loop.Cond)), "html.TextToken")
+			c.R.Check(okLoop, rule, fmt.Sprintf("html.Minifier.Minify/script-template veto#%d looks past comments", n), c.pos(ifs), "the skipping loop covers white space text and comments", "the look-ahead in front of the veto does not skip comment tokens: a comment between the end tag and a script / template element hides that element, the end tag is omitted, the comment is dropped, and the element is parsed into the unclosed one")
+			c.R.Check(strings.Contains(cs, "html.CommentToken"), rule, fmt.Sprintf("html.Minifier.Minify/script-template veto#%d keeps the end tag in front of a kept comment", n), c.pos(ifs.Cond), "the veto names html.CommentToken", "a comment that is kept (KeepComments, KeepSpecialComments) is written right after the omitted end tag and becomes a child of the unclosed element")
+		}
+		return true
+	})
+	c.R.Floor(rule, "script/template vetoes", n, 1)
+}
+
+// R03.15: the colgroup start tag stays while the previous colgroup is still open.
+func (c *Ctx) r0315(pk *packages.Package, fd *ast.FuncDecl) {
+	const rule = "R03.15"
+	c.R.Rule(rule, "HTML §13.1.2.4: a colgroup start tag may be omitted if the first thing inside is a col element *and the element is not immediately preceded by another colgroup element whose end tag has been omitted* — without its start tag the col elements are parsed into the colgroup that is still open (`<colgroup span=2><colgroup><col>` → the col inside the first group; `<colgroup><col><colgroup><col>` → one group). In html.(*Minifier).Minify the verdict on a colgroup start tag (the assignment `keepTag = …` that names Col on the look-ahead token) has a disjunct that is a colgroup flag, or a copy of one taken before the flag is updated: a boolean assigned only false, or under `t.Hash == Colgroup` the start-tag test")
+	info := pk.TypesInfo
+	g := c.graph(pk, fd)
+	isColgroupFlag := func(o types.Object) bool {
+		if o == nil {
+			return false
+		}
+		n, pos := 0, 0
+		for _, y := range g.Nodes {
+			as, ok := y.Stmt.(*ast.AssignStmt)
+			if !ok || y.Kind != flow.KStmt {
+				continue
+			}
+			for i, l := range as.Lhs {
+				id, ok := l.(*ast.Ident)
+				if !ok || info.ObjectOf(id) != o || i >= len(as.Rhs) {
+					continue
+				}
+				n++
+				r := nospace(str(as.Rhs[i]))
+				if r == "false" {
+					continue
+				}
+				if r != "true" && r != "t.TokenType==html.StartTagToken" && r != "html.StartTagToken==t.TokenType" {
+					return false
+				}
+				under := false
+				for _, f := range g.DomFacts(y) {
+					if f.Value && f.Test.Kind == flow.KCond {
+						if cs := nospace(str(f.Test.Expr)); cs == "t.Hash==Colgroup" || cs == "Colgroup==t.Hash" {
+							under = true
+						}
+					}
+				}
+				if !under {
+					return false
+				}
+				pos++
+			}
+		}
+		return n >= 2 && pos >= 1
+	}
+	flagOrCopy := func(o types.Object) bool {
+		if isColgroupFlag(o) {
+			return true
+		}
+		// a copy: exactly one definition, from a colgroup flag
+		n := 0
+		ok := false
+		for _, y := range g.Nodes {
+			as, isAs := y.Stmt.(*ast.AssignStmt)
+			if !isAs || y.Kind != flow.KStmt {
+				continue
+			}
+			for i, l := range as.Lhs {
+				if id, isId := l.(*ast.Ident); isId && info.ObjectOf(id) == o && i < len(as.Rhs) {
+					n++
+					if rid, isR := ast.Unparen(as.Rhs[i]).(*ast.Ident); isR && isColgroupFlag(info.Uses[rid]) {
+						ok = true
+					}
+				}
+			}
+		}
+		return n == 1 && ok
+	}
+	n := 0
+	for _, y := range g.Nodes {
+		as, ok := y.Stmt.(*ast.AssignStmt)
+		if !ok || y.Kind != flow.KStmt || len(as.Lhs) != 1 || len(as.Rhs) != 1 || str(as.Lhs[0]) != "keepTag" {
+			continue
+		}
+		rs := nospace(str(as.Rhs[0]))
+		if !(strings.Contains(rs, ".Hash!=Col") || strings.Contains(rs, ".Hash==Col")) || strings.Contains(rs, ".Hash==Colgroup") || strings.Contains(rs, ".Hash!=Colgroup") {
+			continue
+		}
+		n++
+		has := false
+		var walk func(e ast.Expr)
+		walk = func(e ast.Expr) {
+			e = ast.Unparen(e)
+			if b, ok := e.(*ast.BinaryExpr); ok && b.Op == token.LOR {
+				walk(b.X)
+				walk(b.Y)
+				return
+			}
+			if id, ok := e.(*ast.Ident); ok && flagOrCopy(info.Uses[id]) {
+				has = true
+			}
+		}
+		walk(as.Rhs[0])
+		c.R.Check(has, rule, fmt.Sprintf("html.Minifier.Minify/colgroup start tag kept while a colgroup is open#%d", n), c.pos(as), "the verdict has the open-colgroup flag as a disjunct", "the colgroup start tag is dropped whenever a col follows, also right after a colgroup whose end tag is missing: its col elements are then parsed into that earlier group (`<colgroup span=2><colgroup><col></colgroup>` → one group of span 2 with a col in it)")
+	}
+	c.R.Floor(rule, "verdicts on a colgroup start tag", n, 1)
 }
